@@ -467,6 +467,27 @@ func (e *c5e) requiredUnderHidden() bool {
 	})
 }
 
+// embeddedLiteralHoldsClosed: some struct literal that is itself EMBEDDED in a struct literal
+// has a field or pattern whose value is directly `#Def` or `close(...)`.
+func (e *c5e) embeddedLiteralHoldsClosed() bool {
+	return e.anyNode(func(n *c5e) bool {
+		if n.op != '{' {
+			return false
+		}
+		for _, d := range n.decls {
+			if d.kind != 'e' || d.v.op != '{' {
+				continue
+			}
+			for _, f := range d.v.decls {
+				if (f.kind == 'f' || f.kind == 'p') && (f.v.op == 'd' || f.v.op == 'c') {
+					return true
+				}
+			}
+		}
+		return false
+	})
+}
+
 // embedsClosedDirectly: some struct literal directly embeds `#Def` or `close(...)`.
 func (e *c5e) embedsClosedDirectly() bool {
 	return e.anyNode(func(n *c5e) bool {
@@ -1107,6 +1128,7 @@ type c5out struct {
 	skip      bool              // an embedded value is erroneous on its own (region the model does not represent)
 	cs        c5case
 	res       c5res
+	utag, ftag string // known-finding class of an API acceptance (closed value inside an embedded literal)
 	dtag      string // known-finding class for the denied-path observable of a rejected case
 	sole      string // class of `{schema} & data`
 	optAbs    string // class of schema & {zz?: _|_} & data
@@ -1165,6 +1187,22 @@ func c5run(cs c5case, direct bool) c5out {
 	}
 	if strings.HasPrefix(cs.kind, "def-") || cs.kind == "corpus" || cs.kind == "replay" || direct {
 		o.uni, o.fill = c5evalAPI(cs.schema, cs.data)
+	}
+	if o.uni != "" && o.res.class == "err" && (o.uni == "ok" || o.fill == "ok") &&
+		!cs.schema.embedsClosedDirectly() && cs.schema.embeddedLiteralHoldsClosed() {
+		// shape: an EMBEDDED struct literal holds `#Def` / `close(...)` as a field value.
+		// Counterfactual: with the embedding wrapper removed ({{decls}, more} -> {decls, more})
+		// the source-level verdict stays "err" and the API rejects as well.
+		r := cs.schema.repair("nested-embedding", false)
+		if c5eval(c5source(r, cs.data), false).class == "err" {
+			ru, rf := c5evalAPI(r, cs.data)
+			if o.uni == "ok" && ru == "err" {
+				o.utag = "api-unify-loses-closedness-in-embedded-literal"
+			}
+			if o.fill == "ok" && rf == "err" {
+				o.ftag = "api-fillpath-loses-closedness-in-embedded-literal"
+			}
+		}
 	}
 	if !direct {
 		return o
@@ -1230,15 +1268,7 @@ func c5emit(c *Cfg, o c5out) {
 	c.OpTag("O", tag, "adm "+sw+" "+dw, o.res.class)
 	if o.res.denied != "" && !o.cs.schema.conflictingRequiredUnderHidden() {
 		c.OpTag("O", tag0(tag, o.dtag), "den "+sw+" "+dw, o.res.denied)
-		// the evidence model (Layer B) is not faithful for a `...` inside an embedded expression
-		// whose effect reaches the children (3 of 1.5 M thorough cases disagreed, all of this
-		// shape, e.g. `#N: {a?: {a?: int}, close({...})}`): outside the validated domain of
-		// the transcription, counted and left out (open item in notes/C05.md)
-		if o.cs.schema.ellipsisInsideEmbedding() {
-			c.Count("tyev-skipped/ellipsis-inside-embedding")
-		} else {
-			c.OpTag("I", "", "tyev "+sw+" "+dw, o.res.denied)
-		}
+		c.OpTag("I", "", "tyev "+sw+" "+dw, o.res.denied)
 		c.Count("denied-paths/" + fmt.Sprint(strings.Count(o.res.denied, ",")+1-strings.Count(o.res.denied, "-")))
 	}
 	if o.res.allows != nil {
@@ -1271,6 +1301,12 @@ func c5emit(c *Cfg, o c5out) {
 			// shape: a conjunction with a definition operand; FillPath closes the other
 			// operands' fields recursively, as an embedding would (cf. finding 4)
 			ft = "api-fillpath-closes-like-embedding"
+		}
+		if ut == "" {
+			ut = o.utag
+		}
+		if ft == "" {
+			ft = o.ftag
 		}
 		c.OpTag("O", ut, "uni "+sw+" "+dw, o.uni)
 		c.OpTag("O", ft, "fill "+sw+" "+dw, o.fill)
